@@ -6,6 +6,12 @@ LOOKUP = ('Utility::lookup', dict(select=r'const char ?\*'))
 # native counterpart of the ghost bookkeeping of contracts/Math_AngNormalize.c (replay only)
 # the reduced angle the clauses of sind / cosd / sincosd talk about is DEFINED as remquo(x, 90) (C standard): computed natively from that definition
 REMQUO_GHOST = '{ int q_ = 0; cap_d = std::remquo((double)x, 90.0, &q_); vm_last_k = q_; }'
+# PolygonArea jobs: `acc += y` is rewritten to the call operator+= makes; the operator definitions must be unchanged (else: extraction break)
+ACC_REQUIRE = [('include/GeographicLib/Accumulator.hpp', r'Accumulator& operator\+=\(T y\) \{ Add\(y\); return \*this; \}'),
+               ('include/GeographicLib/Accumulator.hpp', r'T operator\(\)\(\) const \{ return _s; \}'),
+               ('include/GeographicLib/Accumulator.hpp', r'T operator\(\)\(T y\) const \{ return Sum\(y\); \}'),
+               ('include/GeographicLib/Accumulator.hpp', r'Accumulator& operator=\(T y\) \{ _s = y; _t = 0; return \*this; \}')]
+ACC_PLUS_EQ = (r'\b(_perimetersum|_areasum) \+= (\w+);', r'Accumulator_Add(VERIF_OBJ(\1), \2);')
 ANGNORM_GHOST = 'g_AngNormalize_calls = 1; g_AngNormalize_arg = %s; g_AngNormalize_ret = Math::AngNormalize(g_AngNormalize_arg);'
 
 # domain in which the AngNormalize contract pins its result (identity clause); used only to re-query replayable counterexamples
@@ -129,7 +135,15 @@ JOBS = [
     # ---- output masks / line objects (C12), ranges (C01)
     Job('GeodesicLine.GenPosition', 'GeodesicLine::GenPosition', ['C12', 'C01', 'C13', 'C14'], const_classes=['<Geodesic'], timeout=600,
         replace=['Math::sincosd', 'Math::atan2d', ('Math::AngNormalize', dict(ghost=False)), 'Geodesic::SinCosSeries', 'GeodesicLineExact::GenPosition'],
-        inline=['GeodesicLine::Init'], sat='cadical', description='position on a geodesic line (series): output-mask frame, NaN rule, ranges'),
+        inline=['GeodesicLine::Init'], sat='cadical',
+        # the contract is for the series path (precondition !_exact): the delegation to the exact line is dead under it (GeodesicLineExact::GenPosition has its own job)
+        allow_unreachable=[r'GeodesicLineExact_GenPosition', r'block:return _lineexact\.GenPosition\('],
+        description='position on a geodesic line (series): output-mask frame, NaN rule, ranges'),
+    # ---- Accumulator (C16, C08)
+    Job('Accumulator.Add', 'Accumulator::Add', ['C16', 'C08', 'C13'], inline=['Math::sum'], timeout=600, description='two-word accumulator: add a value (frame, NaN, empty accumulator)'),
+    Job('Accumulator.Sum', 'Accumulator::Sum', ['C16', 'C08', 'C14'], replace=[('Accumulator::Add', dict(ghost=False))], timeout=300,
+        rewrites=[(r'Accumulator a\(\*this\);', 'struct Accumulator a = *self;'), (r'a\.Add\(y\);', 'Accumulator_Add(VERIF_OBJ(a), y);')],
+        description='sum with one more value, the accumulator itself unchanged'),
     # ---- polygon area (C08)
     Job('PolygonArea.transitdirect', 'PolygonAreaT::transitdirect', ['C08', 'C14'], timeout=900, sat='cadical', description='crossing parity for unrolled (direct) edges'),
     Job('PolygonArea.transitdirect.full', 'PolygonAreaT::transitdirect', ['C08'], timeout=14000, sat='cadical', tier='thorough', defines=['TD_MAXTURNS=1073741824'],
@@ -137,7 +151,38 @@ JOBS = [
     Job('PolygonArea.transit', 'PolygonAreaT::transit', ['C08', 'C13', 'C14'], timeout=600, sat='cadical',
         inline=[('Math::AngDiff', dict(arity=2, cname='Math_AngDiff2')), ('Math::AngDiff', dict(arity=3, select=r'T& ?e')), 'Math::sum', 'Math::AngNormalize'],
         description='prime-meridian crossing of the shortest edge (inverse edges)'),
-    Job('PolygonArea.AreaReduce', 'PolygonAreaT::AreaReduce', ['C08', 'C14'], timeout=300, inline=[('PolygonAreaT::Remainder', dict(select=r'real'))],
+    Job('PolygonArea.Clear', 'PolygonAreaT::Clear', ['C08'], structs=['Accumulator'], inline=['Math::NaN'], require=ACC_REQUIRE,
+        rewrites=[(r'_areasum = 0;', '_areasum._s = 0; _areasum._t = 0;'), (r'_perimetersum = 0;', '_perimetersum._s = 0; _perimetersum._t = 0;')],
+        description='Clear: an empty history'),
+    Job('PolygonArea.ctor', 'PolygonAreaT::PolygonAreaT', ['C08', 'C13'], const_classes=['<Geodesic'], structs=['Accumulator'],
+        replace=['Geodesic::EllipsoidArea', 'PolygonAreaT::Clear'], rewrites=[(r'_earth = earth;', '_earth = *earth;')],
+        description='constructor: empty history and the solver mask (establishes the invariant of the other PolygonArea contracts)'),
+    Job('PolygonArea.AddPoint', 'PolygonAreaT::AddPoint', ['C08', 'C13'], const_classes=['<Geodesic'],
+        replace=[('Geodesic::GenInverse', dict(arity=12)), 'Accumulator::Add', 'PolygonAreaT::transit'],
+        require=ACC_REQUIRE, rewrites=[ACC_PLUS_EQ],
+        description='edit history: one vertex = one edge added to the sums and the crossing count'),
+    Job('PolygonArea.AddEdge', 'PolygonAreaT::AddEdge', ['C08', 'C13'], const_classes=['<Geodesic'],
+        replace=['Geodesic::GenDirect', 'Accumulator::Add', 'PolygonAreaT::transitdirect'], require=ACC_REQUIRE, rewrites=[ACC_PLUS_EQ],
+        description='edit history: one edge by azimuth and length (direct problem from the current vertex)'),
+    Job('PolygonArea.Compute', 'PolygonAreaT::Compute', ['C08', 'C14'], const_classes=['<Geodesic'],
+        replace=[('Geodesic::GenInverse', dict(arity=12)), 'Accumulator::Add', 'Accumulator::Sum', 'PolygonAreaT::transit'], extra_replace=['PolygonAreaT_AreaReduceAcc'],
+        require=ACC_REQUIRE,
+        rewrites=[(r'_perimetersum\(\)', '_perimetersum._s'), (r'_perimetersum\(s12\)', 'Accumulator_Sum(VERIF_OBJ(_perimetersum), s12)'),
+                  (r'Accumulator<> tempsum\(_areasum\);', 'struct Accumulator tempsum = _areasum;'), (r'tempsum \+= S12;', 'Accumulator_Add(VERIF_OBJ(tempsum), S12);'),
+                  (r'AreaReduce\(tempsum, crossings, reverse, sign\);', 'PolygonAreaT_AreaReduceAcc(self, &tempsum, crossings, reverse, sign);'),
+                  (r'tempsum\(\)', 'tempsum._s')],
+        description='closing the polygon on a copy of the sums: closing edge, crossing total, conventions; the object is not written'),
+    Job('PolygonArea.TestPoint', 'PolygonAreaT::TestPoint', ['C08', 'C14'], const_classes=['<Geodesic'], unwind=4, timeout=900, sat='cadical', structs=['Accumulator'],
+        replace=[('Geodesic::GenInverse', dict(arity=12)), 'PolygonAreaT::transit', 'PolygonAreaT::AreaReduce'], require=ACC_REQUIRE,
+        rewrites=[(r'_perimetersum\(\)', '_perimetersum._s'), (r'_areasum\(\)', '_areasum._s')],
+        description='tentative vertex: the same edges, crossing total and conventions as AddPoint + Compute; the object is not written'),
+    Job('PolygonArea.TestEdge', 'PolygonAreaT::TestEdge', ['C08', 'C14'], const_classes=['<Geodesic'], structs=['Accumulator'], timeout=900,
+        replace=[('Geodesic::GenInverse', dict(arity=12)), 'Geodesic::GenDirect', 'PolygonAreaT::transit', 'PolygonAreaT::transitdirect', 'PolygonAreaT::AreaReduce'],
+        require=ACC_REQUIRE, rewrites=[(r'_perimetersum\(\)', '_perimetersum._s'), (r'_areasum\(\)', '_areasum._s')], inline=['Math::NaN'],
+        description='tentative edge: direct edge + closing edge, crossing total and conventions; the object is not written'),
+    Job('PolygonArea.AreaReduce', 'PolygonAreaT::AreaReduce', ['C08', 'C14'], timeout=600, inline=[('PolygonAreaT::Remainder', dict(select=r'real'))],
+        variants=[('range', [], ['post.range']), ('zero', [], ['post.zero_area']), ('even_signed', [], ['post.even_signed']), ('even_unsigned', [], ['post.even_unsigned']),
+                  ('odd', [], ['post.odd_magnitude'])],
         description='reduction of the accumulated area modulo the ellipsoid area; sign / reverse conventions'),
     # ---- geoid (C20)
     Job('Geoid.height', 'Geoid::height', ['C20', 'C13', 'C14'], timeout=600, unwind=13, sat='cadical',
@@ -147,6 +192,8 @@ JOBS = [
         replace=['Geoid::filepos'],
         rewrites=[(r'_file\.get\((\w+)\);', r'\1 = geoid_file_byte();'),
                   (r'real\(_data\[([^\]]+)\]\s*\[([^;]+)\]\);', r'geoid_cache_read(self, \1, \2);')],
+        # pixel_size_ is the compile-time constant 2 in this configuration (GEOGRAPHICLIB_GEOID_PGM_PIXEL_WIDTH): the 4-byte branch is dead code
+        allow_unreachable=[r'block:if \(pixel_size_ == 4\)'],
         description='raster reader: longitude wrap, pole reflection, area-cache addressing (file offsets inside the raster)'),
     Job('Geoid.height.history', 'Geoid::height', ['C20'], timeout=900, unwind=13, sat='cadical', harness='history', enforce=False,
         replace=[('Geoid::rawval', dict(may_throw=True)), ('Math::AngNormalize', dict(ghost=False)), 'Math::LatFix'],
@@ -266,19 +313,28 @@ PROPS = {
         level='proof',
         level_text='The discrete mechanisms of the polygon classes: the crossing-parity function for direct edges equals the parity of floor(lon2/360) - floor(lon1/360) '
                    'for all longitudes; the crossing function for inverse edges counts the prime-meridian crossing of the shorter way round; the final area reduction lands in '
-                   'the documented interval for every accumulated value, crossing count and option; all discharged by cbmc.',
-        level_note='Trusted: as C18 (exact remainder model for 360 and 720). That S12 sums to the area, invariance under vertex rotation / longitude shifts, additivity, and the '
-                   'AddPoint/TestPoint state machine over the Accumulator are not decided.',
+                   'the documented interval for every accumulated value, crossing count and option, with the reverse / sign conventions and the odd-crossing half-area correction pinned on '
+                   'the inputs where every step is exact; and the EDIT-HISTORY state machine of PolygonAreaT<Geodesic>: AddPoint, AddEdge, Compute, TestPoint, TestEdge each ask exactly the '
+                   'geodesics the property describes (from the current vertex to the new one, from the last back to the first), add exactly those lengths / area terms / crossing counts, '
+                   'TestPoint / TestEdge feed the same crossing total and conventions to the same reduction as AddPoint / AddEdge followed by Compute, and leave the object unchanged; '
+                   'all discharged by cbmc.',
+        level_note='Trusted: as C18 (exact remainder model for 360 and 720); ASSUMED contracts of the inverse solver (frame + record of the call), of the Accumulator instantiation of '
+                   'AreaReduce, and purity of transit / transitdirect / Accumulator arithmetic (uninterpreted functions); the operator definitions of Accumulator.hpp that the rewrites '
+                   'rely on are checked textually on every run. Value clauses of TestPoint / TestEdge are stated on small-integer terms (exact additions). That S12 sums to the area, '
+                   'invariance under vertex rotation / longitude shifts, and additivity are not decided.',
         design_ref='DESIGN.md section 5, C08',
         bounded=['transitdirect parity clause: longitudes within +-4096 turns (1.47e6 degrees) in the quick tier (a restriction of the clause, all doubles in that range); +-2^30 turns in the thorough tier'],
-        not_decided=['perimeter and area are those of the polygon (numeric: sums of inverse/direct solutions)', 'TestPoint/TestEdge equal AddPoint/AddEdge + Compute (state machine over Accumulator: not extracted)',
-                     'invariances (first vertex, longitude shifts, cutting along a diagonal)'],
+        not_decided=['perimeter and area are those of the polygon (numeric: sums of inverse/direct solutions)',
+                     'bit-for-bit equality of TestPoint/TestEdge with AddPoint/AddEdge + Compute (they differ by design: plain double sums vs the two-word accumulator)',
+                     'invariances (first vertex, longitude shifts, cutting along a diagonal)', 'PolygonAreaT<GeodesicExact>, PolygonAreaT<Rhumb> instantiations'],
     ),
     'C01': dict(
         level='other',
         level_text='Only two discrete clauses of this (numeric) property are decided, by proof: returned azimuths, latitudes and (without unrolling) longitudes of '
                    'GeodesicLine::GenPosition lie in [-180,180] / [-90,90] for every line state and argument, via the contract of Math::atan2d / AngNormalize; '
-                   'and Math::atan2d itself (quadrants, exact axes). The accuracy claims are not decided by this technique.',
+                   'and Math::atan2d itself (quadrants, exact axes); plus the bookkeeping the direct problem rests on: Geodesic::GenDirect (DISTANCE_IN supplied automatically, same request '
+                   'passed to the line, ranges of the outputs), the line constructors / LineInit (capability word, stored point, normalised azimuth) and the series coefficient '
+                   'functions (tables consumed exactly, arrays in bounds). The accuracy claims are not decided by this technique.',
         level_note='Trusted: as C18 and C12; range-only libm models. Not decided: every accuracy / agreement clause, coefficient values, unrolled-longitude circuit count.',
         design_ref='DESIGN.md section 5, C01',
         explanation='Contract-based proof of the range clauses only (obligations listed under functions_under_contract); the numeric core of C01 '
@@ -309,9 +365,12 @@ PROPS = {
         level='proof',
         level_text='For all 2^16 masks x all capability words x both arc modes: an output that was not requested or that the line lacks the capability '
                    'for is byte-for-byte untouched (conditional __CPROVER_assigns frame), a line that cannot locate the point returns NaN and writes nothing, '
-                   'the const method writes no member; discharged by cbmc on the extracted GenPosition.',
-        level_note='Trusted: as C18, plus ASSUMED contracts of Geodesic::SinCosSeries and of the exact-line delegate. Value independence beyond round-off '
-                   'of alternative evaluation paths, arc/distance consistency and third-point reproduction are numeric and not decided.',
+                   'the const method writes no member; discharged by cbmc on the extracted GenPosition (series and exact). The capability word itself is under contract: '
+                   'LineInit of both line classes stores caps | LATITUDE | AZIMUTH | LONG_UNROLL, the point, the azimuth and an undefined (NaN) third point; the constructors used by '
+                   'DirectLine / ArcDirectLine / InverseLine store the third point through SetDistance / SetArc (NaN for the quantity the line cannot compute); '
+                   'Geodesic::GenDirect supplies DISTANCE_IN automatically, asks the temporary line exactly what the caller asked and writes only the requested outputs.',
+        level_note='Trusted: as C18, plus ASSUMED contracts of Geodesic::SinCosSeries, the elliptic-function / DST callees of the exact line and GeodesicExact::GenDirect. Value independence '
+                   'beyond round-off of alternative evaluation paths, arc/distance consistency and third-point reproduction are numeric and not decided.',
         design_ref='DESIGN.md section 5, C12',
         not_decided=['values do not depend on the mask beyond round-off (numeric)', 'position by arc and by distance agree; stored third point reproduces the end point (numeric)',
                      'GenInverse mask logic'],
